@@ -43,20 +43,36 @@ func refCheckSigStructure(tag string, content []byte, context string, prots [][]
 
 // constructed COSE_Sign1: what the signer receives vs. what is later emitted
 func H_C02_sign1_constructed() {
-	msg := &Sign1Message{
-		Headers: Headers{Protected: ProtectedHeader(mkBenignMap("p", 2+vTier(), c02Rich())), Unprotected: UnprotectedHeader(mkBenignMap("u", 1, false))},
-		Payload: vBlob("payload"),
+	var h Headers
+	switch vChoose("hdr", 3) {
+	case 0:
+		h = Headers{Protected: ProtectedHeader(mkBenignMap("p", 2+vTier(), c02Rich())), Unprotected: UnprotectedHeader(mkBenignMap("u", 1, false))}
+	case 1: // the zero Headers: nil maps (Sign allocates the protected map to insert alg)
+	case 2:
+		h = Headers{Protected: ProtectedHeader{}, Unprotected: UnprotectedHeader{}}
 	}
+	msg := &Sign1Message{Headers: h, Payload: vBlob("payload")}
 	ext := mkExternal("ext")
 	spy := &spySigner{alg: Algorithm(vInt64("alg")), sig: vBlobN("sig", 1, 200)}
-	err := msg.Sign(nil, ext, spy)
+	tagged := vChoose("tagged", 2) == 0
+	var err error
+	if tagged {
+		err = msg.Sign(nil, ext, spy)
+	} else {
+		err = (*UntaggedSign1Message)(msg).Sign(nil, ext, spy)
+	}
 	if err != nil {
 		vAssert("signer not called when Sign fails", spy.calls == 0)
 		vReach("sign refused")
 		return
 	}
 	vAssert("signer called exactly once", spy.calls == 1)
-	out, err := msg.MarshalCBOR()
+	var out []byte
+	if tagged {
+		out, err = msg.MarshalCBOR()
+	} else {
+		out, err = (*UntaggedSign1Message)(msg).MarshalCBOR()
+	}
 	vAssert("signed message can be encoded", err == nil)
 	if err != nil {
 		return
@@ -67,8 +83,11 @@ func H_C02_sign1_constructed() {
 	if w == nil {
 		return
 	}
-	vAssert("emitted message is tag 18", nMajor(w) == 6 && nArg(w) == 18)
-	arr := nChild(w, 0)
+	arr := w
+	if tagged {
+		vAssert("emitted message is tag 18", nMajor(w) == 6 && nArg(w) == 18)
+		arr = nChild(w, 0)
+	}
 	vAssert("emitted body is a 4-array", nMajor(arr) == 4 && nLen(arr) == 4)
 	wp := nChild(arr, 0)
 	vAssert("wire protected is a bstr", nMajor(wp) == 2)
